@@ -141,6 +141,7 @@ class Rig:
         self.ds, self.kind = ds, kind
         self.bodies = bodies or {}
         self.handles: Dict[int, Any] = {}
+        self.events: Dict[Any, Any] = {}
         rig = self
 
         def factory(target):
@@ -188,6 +189,13 @@ class Rig:
         k = op[0]
         if k == "sleep":
             shims.sleep(op[1])
+            return
+        if k in ("signal", "wait"):         # script synchronisation only (cooperative Event): no scheduler call, nothing logged
+            ev = self.events.setdefault(op[1], shims.Event())
+            if k == "signal":
+                ev.set()
+            else:
+                ev.wait()
             return
         if k == "cancel":
             h = self.handles.get(op[1])
@@ -283,7 +291,7 @@ def explore_scenario(args) -> Dict[str, Any]:
     traces: Dict[str, List[Any]] = {}
     stats = {"executions": 0, "deadlocks": 0, "steplimit": 0, "thread_exc": 0, "preempting": 0}
     with shims.patched(extra=patches()):
-        ex = fastsched.LevelExplorer(bound=bound, per_level=per_level, random_schedules=nrandom, seed=seed)
+        ex = fastsched.LevelExplorer(bound=bound, per_level=tuple(sc.get("per_level") or per_level), random_schedules=nrandom, seed=seed)
         last = {}
 
         def run_one(choose):
@@ -348,7 +356,31 @@ def el_scenarios(tier: str) -> List[Dict[str, Any]]:
     for b in base:
         for ex in (False, True):
             out.append(dict(b, kind="eventloop", exit=ex))
-    return out
+    return out + handover_scenarios(tier)
+
+
+def handover_scenarios(tier: str) -> List[Dict[str, Any]]:
+    """exit_if_empty hand-over: a client is released (cooperative Event set by the LAST operation of an action) exactly when
+    the loop thread is on its way out, so in the non-preemptive default schedule the loop thread runs its whole exit path
+    (end of action, last critical section, lock release, return) with the client already runnable.  EVERY single preemption
+    of that path is explored (per_level override: level 1 complete) - each lets the client's whole schedule call land at a
+    different point of the exit path, in particular between the last lock release and whatever follows it.  The traces
+    differ only in where the call falls, so this costs few distinct traces."""
+    full = (1, 2000, 40, 4) if tier == "quick" else (1, 2000, 600, 100, 20)
+    fam = [
+        dict(name="handover-imm", threads=[[["imm", 1]], [["wait", "a"], ["imm", 2]]], bodies={"1": [["signal", "a"]]}, horizon=2),
+        dict(name="handover-timed", threads=[[["imm", 1]], [["wait", "a"], ["rel", 2, 1]]], bodies={"1": [["signal", "a"]]}, horizon=3),
+        dict(name="handover-after-timed", threads=[[["imm", 1], ["rel", 3, 1]], [["wait", "a"], ["imm", 2], ["imm", 4]]],
+             bodies={"3": [["signal", "a"]]}, horizon=3),
+    ]
+    if tier != "quick":
+        fam += [
+            dict(name="handover-two-clients", threads=[[["imm", 1]], [["wait", "a"], ["imm", 2]], [["wait", "a"], ["rel", 3, 1]]],
+                 bodies={"1": [["signal", "a"]]}, horizon=3),
+            dict(name="handover-cancel", threads=[[["imm", 1], ["rel", 3, 2]], [["wait", "a"], ["cancel", 3], ["imm", 2]]],
+                 bodies={"1": [["signal", "a"]]}, horizon=4),
+        ]
+    return [dict(b, kind="eventloop", exit=True, per_level=full) for b in fam]
 
 
 TS_INVS = ["TypeOK", "NotEarly", "CancelledBeforeDueNeverRuns", "AtMostOnce"]
